@@ -4234,6 +4234,15 @@ fn diff_abi_def(a: &AbiTraitDefinition, b: &AbiTraitDefinition, path: String, is
                     return Some(diff);
                 }
             }
+            // The return value is part of the signature too (for a future, its output)
+            if let Some(diff) = diff_schema(
+                &amet.info.return_value,
+                &bmet.info.return_value,
+                format!("{}(return value)", amet.name),
+                true,
+            ) {
+                return Some(diff);
+            }
         }
     }
     return None;
